@@ -14,7 +14,7 @@ CONFIG = dict(
              "every transaction id and every user modifier list of any length; a clause about a field is stated for "
              "the lists none of whose members writes that field (NoWrite), C15_modifiers_last/C15_last_writer/"
              "C15_user_prevails covering the lists that do."),
-    rule=("v4build: the seven real builders (New, NewDiscovery, NewInform, NewRequestFromOffer, NewRenewFromAck, "
+    rule=("v4build: (request lists incl. the builders' defaults moved by 8..128; option 54 / 50 of the inputs incl. all zeros, all ones, the packet's own siaddr / yiaddr; oracle c15 rule user-prevails also for WithRequestedOptions and WithNetboot as the last modifier) the seven real builders (New, NewDiscovery, NewInform, NewRequestFromOffer, NewRenewFromAck, "
           "NewReplyFromRequest, NewReleaseFromACK) called on generated input packets (any opcode/flags/addresses; options "
           "82, 61, 54, 55, 50, 53 each absent / nil / empty non-nil / non-empty; one third decoded from ToBytes output; "
           "zero-value packets) with 0..4 modifiers drawn from all 24 exported With* functions (arguments biased to "
